@@ -167,6 +167,12 @@ def load_tasks(namespace, command_names=(), allow_delayed=False, args=(),
     def _process_gen(ref, creator_kwargs):
         """process a task creator, generating tasks"""
         gen_tasks = generate_tasks(name, ref(**creator_kwargs), ref.__doc__)
+        # `basename` can rename a task, check it is not a command name
+        for task in gen_tasks:
+            if task.subtask_of is None and task.name in command_names:
+                msg = (f"Task can't be called '{task.name}' because this is"
+                       " a command name. Please choose another name.")
+                raise InvalidDodoFile(msg)
         if hasattr(ref, '_task_creator_params'):
             _append_params(gen_tasks, ref._task_creator_params)
         task_list.extend(gen_tasks)
